@@ -88,6 +88,10 @@ def ensure_generated():
 Definition rdatatype_members : list Z := [%s].
 Definition mods : list key := map (fun e => (e_class e, e_type e)) table.
 Definition hand_table : list (Z * Z * hid) := [%s].
+(* does the writer hand the compression table to an embedded name?  (per type; and the number of
+   such name writes in classes outside the allowed set, hand-modelled codecs and helpers included) *)
+Definition name_compress : list (Z * Z * bool) := [%s].
+Definition stray_compress_sites : nat := %d%%nat.
 Definition run (c : obs) : obs :=
   match c with
   | L [I 22; L steps] =>
@@ -98,7 +102,8 @@ Definition run (c : obs) : obs :=
   | _ => run_all table hand_table c
   end.
 """ % ("; ".join(str(v) for v in tr["rdatatype_members"]),
-       "; ".join(f"({t['rdclass']}, {t['rdtype']}, {TR.COQ_HAND[t['hand']]})" for t in tr["types"] if t["kind"] == "hand" and t["hand"] in TR.COQ_HAND))
+       "; ".join(f"({t['rdclass']}, {t['rdtype']}, {TR.COQ_HAND[t['hand']]})" for t in tr["types"] if t["kind"] == "hand" and t["hand"] in TR.COQ_HAND),
+       "; ".join(f"({c}, {t}, {'true' if b else 'false'})" for c, t, b in tr["name_compress"]), len(tr["stray_compress_sites"]))
     proofs = r"""From DV Require Import Base.Prelude Model.NameM Model.SchemaM Model.DispatchM Proofs.SchemaCodec Proofs.SchemaTable Proofs.SchemaOrigin Proofs.SchemaOriginFix Proofs.SchemaDispatch.
 From Scratch Require Import GenRdtypes.
 Open Scope Z_scope.
@@ -107,6 +112,9 @@ Proof. vm_compute. reflexivity. Qed.
 (* the only type whose reader and writer disagree about the origin is TSIG (known finding) *)
 Theorem gen_table_origin_exceptions :
   map (fun e => (e_class e, e_type e)) (filter (fun e => negb (entry_origin_ok e)) table) = [(255, 250)].
+Proof. vm_compute. reflexivity. Qed.
+(* only the RFC 1035 name types (and SRV, NAPTR) compress embedded names *)
+Theorem gen_compress_ok : compress_ok name_compress stray_compress_sites = true.
 Proof. vm_compute. reflexivity. Qed.
 (* the generic theorems instantiated on the table generated from the sources of this run *)
 Theorem gen_table_roundtrip : forall e w r ck vs b A P,
@@ -153,9 +161,9 @@ Print Assumptions gen_dispatch_history_correct.
     lib.coq_make(["Proofs/SchemaOriginFix.vo", "Proofs/SchemaDispatch.vo", "Model/SchemaRun.vo"])
     rc0, out0, _ = lib.run_cmd(["coqc", "-Q", lib.COQ, "DV", "-Q", d, "Scratch", path], timeout=900)
     rc, out, dt = (1, "table file did not compile:\n" + out0, 0) if rc0 != 0 else lib.run_cmd(["coqc", "-Q", lib.COQ, "DV", "-Q", d, "Scratch", ppath], timeout=900)
-    thms = ["gen_table_ok", "gen_table_origin_exceptions", "gen_table_roundtrip", "gen_table_fixed_point", "gen_table_roundtrip_origin", "gen_table_fixed_point_origin", "gen_dispatch_history_correct", "translation_closed"]
+    thms = ["gen_table_ok", "gen_compress_ok", "gen_table_origin_exceptions", "gen_table_roundtrip", "gen_table_fixed_point", "gen_table_roundtrip_origin", "gen_table_fixed_point_origin", "gen_dispatch_history_correct", "translation_closed"]
     ok = rc == 0 and tr["ok"]
-    discharged = (7 if rc == 0 else 0) + (1 if tr["ok"] else 0)
+    discharged = (8 if rc == 0 else 0) + (1 if tr["ok"] else 0)
     if rc == 0 and "Closed under the global context" not in out:
         ok = False
     log = ""
@@ -164,7 +172,7 @@ Print Assumptions gen_dispatch_history_correct.
     if rc != 0:
         log += "generated table does not check:\n" + out[-2500:]
     _gen_state.update(
-        ok=ok, obligations=8, discharged=discharged, theorems=thms, log=log, compiled=(rc0 == 0),
+        ok=ok, obligations=9, discharged=discharged, theorems=thms, log=log, compiled=(rc0 == 0),
         info={"types_schema": sum(1 for t in tr["types"] if t["kind"] == "schema"),
               "types_hand": sorted(t["name"] for t in tr["types"] if t["kind"] == "hand"),
               "types_error": sorted(t["name"] for t in tr["types"] if t["kind"] == "error"),
@@ -853,6 +861,30 @@ def oracle(ctx, kind, case, out):
                 fail("the compressed encoding does not decode to an equal record", **tags)
         except Exception as e:
             fail("canonical / compressed encoding raised " + type(e).__name__ + ": " + str(e)[:60], **tags)
+        try:
+            # rendered inside a message, after case-variant copies of its own names, with the
+            # compression table those copies left behind (what dns.message / dns.renderer do)
+            fm = io.BytesIO()
+            fm.write(bytes(12))
+            table = {}
+            for n in names:
+                full = list(n) if (n and n[-1] == b"") else list(n) + list(o or [b""])
+                if nl.fits(full):
+                    dns.name.Name([l.swapcase() for l in full]).to_wire(fm, table)
+            start = fm.tell()
+            x.to_wire(fm, table, origin)
+            msg = fm.getvalue()
+            may = tname in TR.MAY_COMPRESS
+            if not may and msg[start:] != w:
+                fail("a type outside the RFC 3597 well-known set compressed an embedded name", **tags)
+            ym = dns.rdata.from_wire(cl, ty, msg, start, len(msg) - start, origin)
+            if not below and (not (ym == x) or ym.to_digestable(origin) != x.to_digestable(origin)):
+                fail("rendered with a compression table (case-variant suffixes) the record decodes to an unequal record", **tags)
+            wm = ym.to_wire(origin=origin)
+            if (wm != w and not may) or wm.lower() != w.lower():
+                fail("rendered with a compression table the record re-encodes to different octets", **tags)
+        except Exception as e:
+            fail("rendering with a compression table raised " + type(e).__name__ + ": " + str(e)[:60], **tags)
         try:
             f = io.BytesIO()
             x.to_wire(f, None, origin)
